@@ -86,18 +86,29 @@ func (c03Checker) Meta() CheckerMeta {
 
 var probeCounts = map[string]int{} // "probe_t0:parse", "probe_t0:exec", "probe_f0:call"
 
-type probeTagNode struct{ name string }
+type probeTagNode struct {
+	name string
+	gen  int
+}
 
 func (n probeTagNode) Execute(ctx *pongo2.ExecutionContext, w pongo2.TemplateWriter) *pongo2.Error {
 	probeCounts[n.name+":exec"]++
-	w.WriteString("<" + n.name + ">")
+	if n.gen > 0 {
+		w.WriteString(fmt.Sprintf("<%s#%d>", n.name, n.gen))
+	} else {
+		w.WriteString("<" + n.name + ">")
+	}
 	return nil
 }
 
-func probeTagParser(n string) pongo2.TagParser {
+func probeTagParser(n string) pongo2.TagParser { return probeTagParserGen(n, 0) }
+
+// probeTagParserGen: generation gen of the tag's implementation (what ReplaceTag installs
+// prints its generation, so a set that keeps using the replaced parser shows)
+func probeTagParserGen(n string, gen int) pongo2.TagParser {
 	return func(doc *pongo2.Parser, start *pongo2.Token, arguments *pongo2.Parser) (pongo2.INodeTag, *pongo2.Error) {
 		probeCounts[n+":parse"]++
-		return probeTagNode{n}, nil
+		return probeTagNode{n, gen}, nil
 	}
 }
 
@@ -292,6 +303,9 @@ func c03Build(op *c03Op, dir string, files map[string]string) {
 		}
 	}
 	files[dir+"/inc2.tpl"] = "(inc2)"
+	if len(dir) > 0 && dir[len(dir)-1]%4 == 0 {
+		files[dir+"/inc2.tpl"] = "" // an included file may well be empty
+	}
 	files[dir+"/base2.tpl"] = "(base2)"
 	files[dir+"/mac.tpl"] = "{% macro mm() export %}(mm){% endmacro %}"
 	for _, t := range c03RouteTags[u.Route] {
@@ -753,7 +767,9 @@ func (s *c03Side) do(i int, op c03Op, withBans bool) (r *c03Res) {
 		set.CleanCache()
 	case "replace-tag":
 		if withBans { // the registry is global: once per op, not once per side
-			r.BanErr = errStr(pongo2.ReplaceTag(op.Target, probeTagParser(op.Target)))
+			// (a new generation of the implementation: templates compiled from now on use it, in
+			// every set)
+			r.BanErr = errStr(pongo2.ReplaceTag(op.Target, probeTagParserGen(op.Target, i+1)))
 		}
 	case "replace-filter":
 		if withBans {
@@ -864,6 +880,10 @@ func inSet(m map[string]bool, ks []string) string {
 func (c03Checker) Run(tp *Tapes, opt RunOpt) *Outcome {
 	out := &Outcome{Faults: map[string]int{}}
 	sp := c03Gen(tp)
+	// every run starts from generation 0 of the probe tags (an earlier run may have replaced them)
+	for _, n := range []string{"probe_t0", "probe_t1"} {
+		pongo2.ReplaceTag(n, probeTagParser(n))
+	}
 	disks := []*DiskSpec{{Files: map[string][]FileVer{}}, {Files: map[string][]FileVer{}}}
 	for _, k := range sortedKeys(sp.Files) {
 		d := 0
